@@ -222,7 +222,7 @@ def gen_tree(rng: random.Random) -> dict[str, Any]:
 
 def gen_settings(rng: random.Random, limit: int) -> dict[str, Any]:
     s: dict[str, Any] = {
-        "extend_include": rng.choice([[], [], ["*.mdx"], ["*.txt"], ["notes*"], ["*.mdx", "*.markdown"]]),
+        "extend_include": rng.choice([[], [], [], ["*.mdx"], ["*.txt"], ["notes*"], ["*.mdx", "*.markdown"], ["!CHANGELOG.md"], ["*.mdx", "!draft.*"], ["!README*", "README.md"], ["*.txt", "!a.*"]]),
         "exclude": rng.choice([None, None, None, None, [], ["drafts/"], ["docs/", "x/"], ["vendor/", "dist/", "!vendor/"]]),
         # (a "!pattern" re-includes what an earlier pattern - also a default one - excluded)
         "extend_exclude": rng.choice([[], [], [], ["drafts/"], ["archive/", "sub/"], ["a*/"], ["guide/"], ["!build/"], ["!node_modules/", "!.git/"], ["drafts/", "!drafts/"], ["sub/", "!s*/"]]),
@@ -270,6 +270,11 @@ def gen_args(rng: random.Random, entries: dict[str, Any]) -> list[str]:
         else:
             base = rng.choice([""] + [d + "/" for d in ok_dirs if not any(c in d for c in "*?[")])
             args.append(base + rng.choice(["*.md", "**/*.md", "*/*.md", "*.m*", "**/*"]))
+    if rng.random() < 0.06:
+        args.append(rng.choice(["../outside", "../outside/deep", "../outside/secret.md", "../outside/**/*.md"]))  # leaves the cwd
+    if rng.random() < 0.05:
+        args.append("ABS:" + rng.choice(["*.md", "**/*.md"]))  # glob with an absolute prefix
+    args = args[-5:]
     if not args:
         args = ["."]
     # overlapping arguments: a directory together with one of its sub-directories (either order)
@@ -310,7 +315,15 @@ class Ref:
         return last is not None and not last.get("neg")
 
     def included(self, name: str) -> bool:
-        return any(fnmatch.fnmatchcase(name, p) for p in self.include)
+        # include patterns are one gitignore-style list: last match wins, "!pat" drops a name again
+        res = False
+        for p in self.include:
+            if p.startswith("!"):
+                if fnmatch.fnmatchcase(name, p[1:]):
+                    res = False
+            elif fnmatch.fnmatchcase(name, p):
+                res = True
+        return res
 
     def too_big(self, path: str) -> bool:
         lim = self.s["files_max_size"]
@@ -542,6 +555,13 @@ class Ref:
                     stack.append(p)
 
     def _glob(self, pattern: str, put: Any) -> None:
+        if pattern.startswith("/"):
+            pattern = os.path.relpath(pattern, self.root) if not any(c in os.path.dirname(pattern) for c in "*?[") else pattern
+            if pattern.startswith("/"):
+                # wildcard inside an absolute prefix: split at the first wildcard component
+                comps = pattern.split("/")
+                k = next(i for i, c in enumerate(comps) if any(ch in c for ch in "*?["))
+                pattern = os.path.relpath("/".join(comps[:k]) or "/", self.root) + "/" + "/".join(comps[k:])
         parts = pattern.split("/")
         lit: list[str] = []
         for comp in parts:
